@@ -73,3 +73,24 @@ def set_cmd(rng, keys):
         else:
             a = a + [b"extra"]
     return [up(rng, c.encode())] + a, ks
+
+
+class SetGen:
+    """set_cmd with a little memory: a listing command is often followed by a removal through another path (SPOP, SREM, SMOVE away,
+    an S*STORE onto the key) and by the same listing again on the same key — whatever a listing caches must not outlive a change"""
+
+    def __init__(self):
+        self.plan = []
+
+    def __call__(self, rng, keys):
+        if self.plan:
+            return self.plan.pop(0)
+        argv, ks = set_cmd(rng, keys)
+        name = argv[0].lower()
+        if name in (b"smembers", b"sunion", b"sinter", b"sdiff", b"scard", b"srandmember") and len(argv) >= 2 and rng.random() < 0.6:
+            k = argv[1]
+            other = rng.choice(keys)
+            change = rng.choice([[b"SPOP", k], [b"SPOP", k, b"1"], [b"SPOP", k, b"2"], [b"SREM", k, member(rng)], [b"SMOVE", k, other, member(rng)],
+                                 [b"SADD", k, member(rng)], [b"SINTERSTORE", k, k, other], [b"SDIFFSTORE", k, k, other], [b"SMOVE", other, k, member(rng)]])
+            self.plan = [(change, [k, other]), ([b"SMEMBERS", k], [k]), ([b"SCARD", k], [k])]
+        return argv, ks
